@@ -8,6 +8,7 @@ mod recvbuf;
 mod remotecids;
 mod sendbuf;
 mod sentjournal;
+mod streams;
 mod util;
 
 fn main() {
@@ -25,6 +26,8 @@ fn main() {
         "rcvdjournal-random" => rcvdjournal::random(rest),
         "localcids-replay" => localcids::replay(rest),
         "remotecids-replay" => remotecids::replay(rest),
+        "streams-replay" => streams::replay(rest),
+        "streams-random" => streams::random(rest),
         "pncodec" => pncodec::run(rest),
         "recvbuf-replay" => recvbuf::replay(rest),
         "recvbuf-random" => recvbuf::random(rest),
